@@ -28,7 +28,9 @@ SOpt == \E m \in MaxIterSet : \E ff \in BOOLEAN, vb \in BOOLEAN : \E tl \in TolS
             /\ OptCallEffect(m, ff, [i \in 1..tmpl.nv |-> verts[i].pose + 1]) /\ obs' = [op |-> "OptCall"]
             /\ arg' = [NoArg EXCEPT !.op = "OptCall", !.maxIter = m, !.fixFirst = ff, !.verbose = vb, !.tol = tl]
             /\ nopt' = nopt + 1 /\ UNCHANGED tmpl
-SNext == SQuery \/ SSetFixed \/ SOpt
+SReload == /\ ReloadEffect(FALSE, [i \in 1..tmpl.nv |-> verts[i].pose + 100], <<>>) /\ obs' = [op |-> "Reload", raised |-> FALSE]
+           /\ arg' = [NoArg EXCEPT !.op = "Reload"] /\ UNCHANGED <<tmpl, nopt>>
+SNext == SQuery \/ SSetFixed \/ SOpt \/ SReload
 SSpec == SInit /\ [][SNext]_svars
 FixedFrozenS == [][\A i \in DOMAIN verts : verts'[i].fixed => verts'[i].pose = verts[i].pose]_svars
 =============================================================================
